@@ -394,6 +394,110 @@ func runC12(c *Ctx, r *Report) {
 	})
 	r.Doc("R-C12.10", "a copied entry has a clock whenever the original has one (the copy is what Verify hands to the codec under a link key)")
 	entryCopyFieldwise(c, r, "R-C12.10")
+	r.Doc("R-C12.11", "pointer fields of the in-memory entry that a block may leave out (the identity) are dereferenced only behind a nil test, directly or through their getter: every accessor and Verify must be safe on a decoded entry")
+	{
+		entT := p.Named("entry", "Entry")
+		ne2 := NewNilEngine(p, c.CG)
+		var optional []string
+		getters := map[string]bool{}
+		st := entT.Underlying().(*types.Struct)
+		for i := 0; i < st.NumFields(); i++ {
+			f := st.Field(i)
+			if _, ok := f.Type().Underlying().(*types.Pointer); ok {
+				ne2.NilableField[f] = "pointer field of the entry, set from the block only when the block carries it"
+				optional = append(optional, "Entry."+f.Name())
+			}
+		}
+		for _, fn := range p.Fns {
+			if fn.Obj == nil || fn.Body == nil || len(fn.Body.List) != 1 || fn.Pkg.PkgPath != p.pkgPath("entry") {
+				continue
+			}
+			if rs, ok := fn.Body.List[0].(*ast.ReturnStmt); ok && len(rs.Results) == 1 {
+				if v, _ := p.FieldSel(fn, rs.Results[0]); v != nil && ne2.NilableField[v] != "" {
+					getters[fn.Obj.Name()] = true
+				}
+			}
+		}
+		r.Tables["optional_entry_pointer_fields"] = optional
+		r.Floor("R-C12.11", "optional pointer fields of the entry", len(optional), 1)
+		r.Floor("R-C12.11", "getters of optional pointer fields", len(getters), 1)
+		nuse := 0
+		for _, fn := range p.Fns {
+			if strings.HasSuffix(fn.Pkg.PkgPath, "/test") || fn.Body == nil {
+				continue
+			}
+			for _, u := range ne2.FieldUses(fn) {
+				nuse++
+				fname := "?"
+				if u.Field != nil {
+					fname = u.Field.Name()
+				}
+				r.Check(u.OK, "R-C12.11", r.Key("R-C12.11", fn, "deref", fname), u.Pos,
+					fmt.Sprintf("%s (%s) is dominated by a non-nil test", u.Path, u.What),
+					fmt.Sprintf("%s is nil on an entry decoded from a block that leaves the field out (every legacy entry does), and it is dereferenced here (%s) with no dominating nil test: verifying or reading such an entry panics", u.Path, u.What))
+			}
+			// <x>.GetIdentity().<field>: the getter's result dereferenced
+			walkNoLit(fn.Body, func(n ast.Node) bool {
+				se, ok := n.(*ast.SelectorExpr)
+				if !ok {
+					return true
+				}
+				call, ok := ast.Unparen(se.X).(*ast.CallExpr)
+				if !ok {
+					return true
+				}
+				cf := p.Callee(fn, call)
+				if cf == nil || !getters[cf.Name()] || !p.firstParty(cf.Pkg()) {
+					return true
+				}
+				if sig, ok := cf.Type().(*types.Signature); !ok || sig.Recv() == nil || sig.Results().Len() != 1 {
+					return true
+				} else if _, isPtr := sig.Results().At(0).Type().Underlying().(*types.Pointer); !isPtr {
+					return true
+				}
+				if _, isMethodVal := p.TypeOf(fn, se).(*types.Signature); isMethodVal {
+					if pc, ok := p.parent[se].(*ast.CallExpr); !ok || pc.Fun != se {
+						return true
+					}
+					// a method call on the result: pointer-receiver methods of Identity tolerate nothing either
+				}
+				nuse++
+				want := types.ExprString(call)
+				guarded := false
+				for cur := ast.Node(se); cur != nil && !guarded; cur = p.parent[cur] {
+					par := p.parent[cur]
+					switch x := par.(type) {
+					case *ast.IfStmt:
+						if cur == x.Body {
+							for _, a := range splitCond(x.Cond, true) {
+								if e, isNil, ok := nilTest(a); ok && !isNil && types.ExprString(ast.Unparen(e)) == want {
+									guarded = true
+								}
+							}
+						}
+					case *ast.BlockStmt:
+						for _, s2 := range x.List {
+							if s2 == cur {
+								break
+							}
+							if is, ok := s2.(*ast.IfStmt); ok && is.Else == nil && blockAlwaysLeaves(is.Body) {
+								for _, a := range splitCond(is.Cond, false) {
+									if e, isNil, ok := nilTest(a); ok && !isNil && types.ExprString(ast.Unparen(e)) == want {
+										guarded = true
+									}
+								}
+							}
+						}
+					}
+				}
+				r.Check(guarded, "R-C12.11", r.Key("R-C12.11", fn, "deref-getter", cf.Name()+"."+se.Sel.Name), se.Pos(),
+					"the getter's result is tested for nil before it is dereferenced",
+					"`"+types.ExprString(se)+"`: "+cf.Name()+"() is nil on an entry decoded from a block that leaves the field out, and its result is dereferenced here with no nil test: nil-pointer panic")
+				return true
+			})
+		}
+		r.Tables["optional_entry_field_derefs"] = []string{fmt.Sprintf("%d", nuse)}
+	}
 	r.Doc("R-C12.8", "verifying a decoded entry keeps no state between calls (adopted from C07: a remembered failed key parse is a nil the next verification dereferences)")
 	importRules(c, r, "C07", []string{"R-C07.6"}, "R-C12.8", 0) // an expected-zero rule: nothing to adopt on a clean tree
 	r.Doc("R-C12.7", "on the decode path every error result is examined before the next step overwrites it: a failed step never hands its zero values on as if it had succeeded")
